@@ -1,2 +1,3 @@
 """imports every rule module so that the rules register themselves"""
 import rules_c01
+import rules_c04
